@@ -43,7 +43,7 @@ func runFwStorm(c FwStormCase) (res FwStormResult) {
 	for round := 0; round < c.Rounds; round++ {
 		reg := transfer.VerifNewFileWait()
 		var state atomic.Bool
-		ctx, cancel := context.WithTimeout(context.Background(), 2*time.Second)
+		ctx, cancel := context.WithTimeout(context.Background(), 10*time.Second)
 		var wg sync.WaitGroup
 		var back atomic.Int64
 		yields := make([]int, c.Readers+1)
